@@ -42,6 +42,7 @@ var replayAdapters = map[string]func(eng *Engine, a *obAgg, f *Oblig, replay map
 // fixedReplays: obligations whose counterexample is schedule/sequence shaped (not a function input): a hand-written
 // adapter drives the real code through the scenario the failed obligation describes.
 var fixedReplays = map[string]struct{ tmpl, pkg, run string }{
+	"ValidateProposal/pre/validateReshareForRemainers#0/0": {"C08_left_node_reproposed_test.go.tmpl", "internal/dkg", "TestVerifReplayLeftNodeReproposed"},
 	"(*DrandHandler).watchWithTimeout/monitor/requests-wait-only-while-the-next-round-is-known/Unlock#0": {"C01_http_waiter_after_stream_reset_test.go.tmpl", "handler/http", "TestVerifReplayC01HTTPWaiterAfterStreamReset"},
 	"SyncChain/assert/no-stored-round-is-skipped-between-catch-up-and-live-delivery": {"C11_handover_gap_test.go.tmpl", "internal/chain/beacon", "TestVerifReplayC11HandoverGap"},
 	"(*BeaconProcess).storeDKGOutput/assert/a-crash-between-the-two-writes-leaves-group-and-share-of-one-epoch": {"C13_group_share_torn_test.go.tmpl", "internal/core", "TestVerifReplayC13GroupShareTorn"},
